@@ -333,6 +333,8 @@ pub fn gen_cfg(seed: u64, knobs: &C03Knobs) -> MrpCfg {
     MrpCfg {
         victims: Vec::new(),
         closes: Vec::new(),
+        raw_msgs: Vec::new(),
+        hold_until_us: 0,
         planted,
         workloads,
         handlers: (0..n_nodes).map(|_| 2 + tape::biased(3, 400) as usize).collect(),
